@@ -192,3 +192,205 @@ Proof.
   unfold deps_ann. rewrite (closure_is_reach s [h] x Hwf Hlt). split; [tauto|].
   intros [H|H]; [apply reach_base; exact H|exact H].
 Qed.
+
+(** * exactness for lists of roots, resources and datasets *)
+Lemma reach_incl s D D' x : incl D D' -> reach s D x -> reach s D' x.
+Proof. intros Hi. apply reach_trans. intros c Hc. apply reach_base. apply Hi. exact Hc. Qed.
+
+Lemma remove_anns_only ex : forall l s, InvE ex s -> wf_targets s ->
+  forall x, get_ann s x <> None -> get_ann (remove_anns s l) x = None -> reach s l x.
+Proof.
+  unfold remove_anns. induction l as [|c l IH]; intros s HI Hwf x Hl Hd; cbn [fold_left] in Hd; [contradiction|].
+  pose proof (remove_ann_Post ex (fuel_of s) s c HI Hwf (fuel_ok s c)) as RP.
+  pose proof (remove_ann_only ex (fuel_of s) s c HI Hwf (fuel_ok s c) x Hl) as RO.
+  destruct (remove_ann (fuel_of s) s c) as [s1 r]. destruct RP as (P & _ & _). cbn [fst] in *.
+  destruct (live_dec s1 x) as [Hd1|Hl1].
+  - apply (reach_incl s [c] (c :: l) x); [intros y [<-|[]]; left; reflexivity|]. apply RO. exact Hd1.
+  - apply (reach_incl s l (c :: l) x); [intros y Hy; right; exact Hy|].
+    apply (reach_mono s s1 l x (P_sub _ _ _ _ P)). apply (IH s1 (P_inv _ _ _ _ P) (P_wf _ _ _ _ P) x Hl1 Hd).
+Qed.
+
+Lemma dead_of_reach s s' D :
+  (forall y a, get_ann s' y = Some a -> get_ann s y = Some a) -> ann_refs_ok s' ->
+  (forall r, In r D -> get_ann s' r = None) ->
+  forall x, reach s D x -> get_ann s' x = None.
+Proof.
+  intros Hsub Hrf Hroots x Hr. induction Hr as [x Hx|x y a Ha Hl _ IH]; [apply Hroots; exact Hx|].
+  destruct (get_ann s' x) as [a'|] eqn:E; [|reflexivity]. exfalso.
+  pose proof (Hsub x a' E) as Hs. rewrite Ha in Hs. inversion Hs; subst a'.
+  unfold has_leaf in Hl. apply existsb_exists in Hl. destruct Hl as (lf & Hlf & Hon).
+  pose proof (Hrf x a E lf Hlf) as H0.
+  destruct lf; cbn [on_ann] in Hon; try discriminate; apply Nat.eqb_eq in Hon; subst; apply H0; exact IH.
+Qed.
+
+Lemma closure_live s D x : wf_targets s -> get_ann s x <> None ->
+  (In x (closure s D) <-> reach s D x).
+Proof.
+  intros Hwf Hx.
+  assert (Hlt : x < length (anns s)) by (destruct (get_ann s x) as [a|] eqn:E; [apply (get_ann_lt s x a E)|contradiction]).
+  rewrite (closure_is_reach s D x Hwf Hlt). split; [intros [H|H]; [apply reach_base; exact H|exact H]|tauto].
+Qed.
+
+(* remove_resource removes exactly the dependency closure of the annotations on the resource *)
+Theorem rm_resource_exact s r h :
+  Inv s -> wf_targets s -> ann_refs_ok s -> ref_res s r = Some h ->
+  forall x, get_ann s x <> None ->
+    (get_ann (fst (rm_resource s r)) x = None <-> In x (deps_res s h)).
+Proof.
+  intros HI Hwf Hrf Hr x Hx. unfold rm_resource. rewrite Hr.
+  destruct (remove_anns_Post noex (rget (ramm s) h) s HI Hwf) as (P1 & D1).
+  pose proof (remove_anns_only noex (rget (ramm s) h) s HI Hwf) as O1.
+  set (s1 := remove_anns s (rget (ramm s) h)) in *.
+  destruct (remove_anns_Post noex (sort_dedup (concat (nth h (trm s1) []))) s1 (P_inv _ _ _ _ P1) (P_wf _ _ _ _ P1)) as (P2 & D2).
+  pose proof (remove_anns_only noex (sort_dedup (concat (nth h (trm s1) []))) s1 (P_inv _ _ _ _ P1) (P_wf _ _ _ _ P1)) as O2.
+  set (s2 := remove_anns s1 (sort_dedup (concat (nth h (trm s1) [])))) in *.
+  pose proof (Post_trans noex 0 0 s s1 s2 (le_n 0) P1 P2) as P12.
+  set (D0 := scan s (fun a => has_leaf (on_res_text h) a || has_leaf (on_res_meta h) a)).
+  unfold deps_res. fold D0. rewrite (closure_live s D0 x Hwf Hx).
+  assert (Hfin : get_ann (fst (let s3 := set_trm (set_ramm s2 (rclear (ramm s2) h)) (tclear (trm s2) h) in
+                               match get_res s3 h with
+                               | None => (s3, OErr)
+                               | Some rs => (set_ress (set_ridx s3 (id_del (ridx s3) (r_id rs))) (set_slot (ress s3) h None), OOk h)
+                               end)) x = get_ann s2 x).
+  { cbv zeta. destruct (get_res _ h); reflexivity. }
+  cbv zeta in Hfin. rewrite Hfin. clear Hfin.
+  (* members of the second list are annotations on text of h *)
+  assert (L2in : forall y, In y (sort_dedup (concat (nth h (trm s1) []))) -> In y D0).
+  { intros y Hy. apply sort_dedup_In, In_concat_rows in Hy. destruct Hy as (t & Ht).
+    change (rget (nth h (trm s1) []) t) with (tget (trm s1) h t) in Ht. rewrite (I_trm noex s1 (P_inv _ _ _ _ P1)) in Ht.
+    apply scan_member in Ht. destruct Ht as (a & Ha & Hl). apply scan_member. exists a.
+    split; [apply (P_sub _ _ _ _ P1 y a Ha)|]. apply orb_true_iff. left.
+    unfold has_leaf in *. apply existsb_exists in Hl. destruct Hl as (lf & Hlf & Hq). apply existsb_exists. exists lf. split; [exact Hlf|].
+    destruct lf; cbn [on_ts on_res_text] in *; try discriminate; lia. }
+  assert (L1in : forall y, In y (rget (ramm s) h) -> In y D0).
+  { intros y Hy. rewrite (I_ramm noex s HI) in Hy. apply scan_member in Hy. destruct Hy as (a & Ha & Hl).
+    apply scan_member. exists a. split; [exact Ha|]. apply orb_true_iff. right. exact Hl. }
+  split.
+  - intros Hd. destruct (live_dec s1 x) as [Hd1|Hl1].
+    + apply (reach_incl s (rget (ramm s) h) D0 x L1in). apply (O1 x Hx Hd1).
+    + apply (reach_incl s _ D0 x L2in). apply (reach_mono s s1 _ x (P_sub _ _ _ _ P1)). apply (O2 x Hl1 Hd).
+  - intros Hreach. apply (dead_of_reach s s2 D0 (P_sub _ _ _ _ P12) (P_closed _ _ _ _ P12 Hrf)); [|exact Hreach].
+    intros y Hy. apply scan_member in Hy. destruct Hy as (a & Ha & Hl). apply orb_true_iff in Hl.
+    destruct (live_dec s1 y) as [Hd1|Hl1]; [apply (Post_dead _ _ _ _ P2); exact Hd1|].
+    destruct (get_ann s1 y) as [a1|] eqn:E1; [|contradiction].
+    pose proof (P_sub _ _ _ _ P1 y a1 E1) as Hs. rewrite Ha in Hs. inversion Hs; subst a1.
+    destruct Hl as [Hl|Hl].
+    + (* on text of h: still in the text index of s1, hence in the second list *)
+      apply D2. unfold has_leaf in Hl. apply existsb_exists in Hl. destruct Hl as (lf & Hlf & Hq).
+      assert (Ht : exists t, on_ts h t lf = true).
+      { destruct lf; cbn [on_res_text on_ts] in *; try discriminate;
+          match goal with |- exists t, (_ && (?z =? t)) = true => exists z; rewrite Hq, Nat.eqb_refl; reflexivity end. }
+      destruct Ht as (t & Ht). apply sort_dedup_In, In_concat_rows. exists t.
+      change (rget (nth h (trm s1) []) t) with (tget (trm s1) h t). rewrite (I_trm noex s1 (P_inv _ _ _ _ P1)).
+      apply scan_member. exists a. split; [exact E1|]. unfold has_leaf. apply existsb_exists. exists lf. tauto.
+    + (* metadata on h: in the first list *)
+      apply (Post_dead _ _ _ _ P2). apply D1. rewrite (I_ramm noex s HI). apply scan_member. exists a. tauto.
+Qed.
+
+(* remove_dataset removes exactly the dependency closure of the annotations that use data of the
+   set or target the set, one of its keys or one of its data items *)
+Theorem rm_dataset_exact s r h :
+  Inv s -> wf_targets s -> ann_refs_ok s -> ref_set s r = Some h ->
+  forall x, get_ann s x <> None ->
+    (get_ann (fst (rm_dataset s r)) x = None <-> In x (deps_set s h)).
+Proof.
+  intros HI Hwf Hrf Hr x Hx. unfold rm_dataset. rewrite Hr.
+  set (users := filter _ (live_handles (anns s))).
+  destruct (remove_anns_Post noex users s HI Hwf) as (P1 & D1).
+  pose proof (remove_anns_only noex users s HI Hwf) as O1.
+  set (s1 := remove_anns s users) in *.
+  destruct (remove_anns_Post noex (rget (samm s1) h) s1 (P_inv _ _ _ _ P1) (P_wf _ _ _ _ P1)) as (P2 & D2).
+  pose proof (remove_anns_only noex (rget (samm s1) h) s1 (P_inv _ _ _ _ P1) (P_wf _ _ _ _ P1)) as O2.
+  set (s2 := remove_anns s1 (rget (samm s1) h)) in *.
+  set (s3 := set_samm s2 (rclear (samm s2) h)).
+  assert (HI3 : Inv s3).
+  { assert (Rs : scan s2 (has_leaf (on_set h)) = []).
+    { apply (kill_row noex 0 s1 s2 _ (rget (samm s1) h) P2); [|exact D2].
+      intros y a Ha HP. rewrite (I_samm noex s1 (P_inv _ _ _ _ P1)). apply scan_member. exists a. tauto. }
+    destruct (P_inv _ _ _ _ P2) as [H1 H2 H3 H4 H5 H6 H7].
+    constructor; intros; unfold s3; cbn [set_samm trm aam ramm samm kamm damm ddam];
+      unfold s_ts_anns, s_ann_anns, s_res_meta, s_set_meta, s_key_meta, s_data_meta, s_data_anns in *;
+      try first [apply H1|apply H2|apply H3|apply H5|apply H6|apply H7; assumption].
+    rewrite rget_rclear. destruct (d =? h) eqn:E; [|apply H4]. assert (d = h) by lia. subst d. symmetry. apply Rs. }
+  assert (Hwf3 : wf_targets s3) by (apply (wf_frame s2 s3); [reflexivity|exact (P_wf _ _ _ _ P2)]).
+  set (metas := sort_dedup (concat (nth h (kamm s3) []) ++ concat (nth h (damm s3) []))).
+  destruct (remove_anns_Post noex metas s3 HI3 Hwf3) as (P4 & D4).
+  pose proof (remove_anns_only noex metas s3 HI3 Hwf3) as O4.
+  set (s4 := remove_anns s3 metas) in *.
+  assert (Psub4 : forall y a, get_ann s4 y = Some a -> get_ann s y = Some a).
+  { intros y a Ha. apply (P_sub _ _ _ _ P1). apply (P_sub _ _ _ _ P2). apply (P_sub _ _ _ _ P4 y a Ha). }
+  assert (Psub2 : forall y a, get_ann s2 y = Some a -> get_ann s y = Some a).
+  { intros y a Ha. apply (P_sub _ _ _ _ P1). apply (P_sub _ _ _ _ P2 y a Ha). }
+  assert (Hrf4 : ann_refs_ok s4).
+  { apply (P_closed _ _ _ _ P4). apply (ann_refs_frame s2 s3); [reflexivity|]. apply (P_closed _ _ _ _ P2). apply (P_closed _ _ _ _ P1 Hrf). }
+  set (D0 := scan s (fun a => uses_set h a || has_leaf (on_set_any h) a)).
+  unfold deps_set. fold D0. rewrite (closure_live s D0 x Hwf Hx).
+  assert (Hfin : get_ann (fst (let s5 := set_ddam (set_damm (set_kamm s4 (tclear (kamm s4) h)) (tclear (damm s4) h)) (tclear (ddam s4) h) in
+                               match get_set s5 h with
+                               | None => (s5, OErr)
+                               | Some d => (set_sets (set_sidx s5 (id_del (sidx s5) (d_id d))) (set_slot (sets s5) h None), OOk h)
+                               end)) x = get_ann s4 x).
+  { cbv zeta. destruct (get_set _ h); reflexivity. }
+  cbv zeta in Hfin. rewrite Hfin. clear Hfin.
+  (* the three lists consist of members of D0 *)
+  assert (Uin : forall y, In y users -> In y D0).
+  { intros y Hy. unfold users in Hy. apply filter_In in Hy. destruct Hy as (Hl & Hq).
+    destruct (get_ann s y) as [a|] eqn:E; [|discriminate]. apply scan_member. exists a. split; [exact E|].
+    apply orb_true_iff. left. exact Hq. }
+  assert (Sin : forall y, In y (rget (samm s1) h) -> In y D0).
+  { intros y Hy. rewrite (I_samm noex s1 (P_inv _ _ _ _ P1)) in Hy. apply scan_member in Hy. destruct Hy as (a & Ha & Hl).
+    apply scan_member. exists a. split; [apply (P_sub _ _ _ _ P1 y a Ha)|]. apply orb_true_iff. right.
+    unfold has_leaf in *. apply existsb_exists in Hl. destruct Hl as (lf & Hlf & Hq). apply existsb_exists. exists lf. split; [exact Hlf|].
+    destruct lf; cbn [on_set on_set_any] in *; try discriminate; exact Hq. }
+  assert (Min : forall y, In y metas -> In y D0).
+  { intros y Hy. unfold metas in Hy. apply sort_dedup_In, in_app_or in Hy.
+    assert (G : forall a, get_ann s3 y = Some a -> has_leaf (on_set_any h) a = true -> In y D0).
+    { intros a Ha Hl. apply scan_member. exists a. split; [apply Psub2; exact Ha|]. apply orb_true_iff. right. exact Hl. }
+    destruct Hy as [Hy|Hy]; apply In_concat_rows in Hy; destruct Hy as (t & Ht).
+    - change (rget (nth h (kamm s3) []) t) with (tget (kamm s3) h t) in Ht. rewrite (I_kamm noex s3 HI3) in Ht.
+      apply scan_member in Ht. destruct Ht as (a & Ha & Hl). apply (G a Ha).
+      unfold has_leaf in *. apply existsb_exists in Hl. destruct Hl as (lf & Hlf & Hq). apply existsb_exists. exists lf. split; [exact Hlf|].
+      destruct lf; cbn [on_key on_set_any] in *; try discriminate; lia.
+    - change (rget (nth h (damm s3) []) t) with (tget (damm s3) h t) in Ht. rewrite (I_damm noex s3 HI3) in Ht.
+      apply scan_member in Ht. destruct Ht as (a & Ha & Hl). apply (G a Ha).
+      unfold has_leaf in *. apply existsb_exists in Hl. destruct Hl as (lf & Hlf & Hq). apply existsb_exists. exists lf. split; [exact Hlf|].
+      destruct lf; cbn [on_data on_set_any] in *; try discriminate; lia. }
+  split.
+  - intros Hd. destruct (live_dec s1 x) as [Hd1|Hl1].
+    + apply (reach_incl s users D0 x Uin). apply (O1 x Hx Hd1).
+    + destruct (live_dec s2 x) as [Hd2|Hl2].
+      * apply (reach_incl s _ D0 x Sin). apply (reach_mono s s1 _ x (P_sub _ _ _ _ P1)). apply (O2 x Hl1 Hd2).
+      * apply (reach_incl s _ D0 x Min). apply (reach_mono s s3 _ x Psub2). apply (O4 x Hl2 Hd).
+  - intros Hreach. apply (dead_of_reach s s4 D0 Psub4 Hrf4); [|exact Hreach].
+    intros y Hy. apply scan_member in Hy. destruct Hy as (a & Ha & Hl). apply orb_true_iff in Hl.
+    destruct (get_ann s4 y) as [a4|] eqn:E4; [|reflexivity]. exfalso.
+    pose proof (Psub4 y a4 E4) as Hs. rewrite Ha in Hs. inversion Hs; subst a4.
+    assert (E2 : get_ann s2 y = Some a) by (apply (P_sub _ _ _ _ P4 y a E4)).
+    assert (E1 : get_ann s1 y = Some a) by (apply (P_sub _ _ _ _ P2 y a E2)).
+    destruct Hl as [Hl|Hl].
+    + (* uses data of the set: in users, dead after the first list *)
+      assert (Hu : In y users).
+      { unfold users. apply filter_In. split; [apply live_handles_In; exists a; exact Ha|]. rewrite Ha. exact Hl. }
+      specialize (D1 y Hu). unfold get_ann in *. congruence.
+    + unfold has_leaf in Hl. apply existsb_exists in Hl. destruct Hl as (lf & Hlf & Hq).
+      destruct lf; cbn [on_set_any] in Hq; try discriminate; apply Nat.eqb_eq in Hq; subst.
+      * (* targets the set *)
+        assert (Hin : In y (rget (samm s1) h)).
+        { rewrite (I_samm noex s1 (P_inv _ _ _ _ P1)). apply scan_member. exists a. split; [exact E1|].
+          unfold has_leaf. apply existsb_exists. exists (LSet h). split; [exact Hlf|]. cbn [on_set]. apply Nat.eqb_refl. }
+        specialize (D2 y Hin). congruence.
+      * (* targets a key of the set *)
+        assert (Hin : In y metas).
+        { unfold metas. apply sort_dedup_In, in_or_app. left. apply In_concat_rows. exists k.
+          change (rget (nth h (kamm s3) []) k) with (tget (kamm s3) h k). rewrite (I_kamm noex s3 HI3).
+          apply scan_member. exists a. split; [exact E2|]. unfold has_leaf. apply existsb_exists. exists (LKey h k). split; [exact Hlf|].
+          cbn [on_key]. rewrite !Nat.eqb_refl. reflexivity. }
+        specialize (D4 y Hin). congruence.
+      * (* targets a data item of the set *)
+        assert (Hin : In y metas).
+        { unfold metas. apply sort_dedup_In, in_or_app. right. apply In_concat_rows. exists x0.
+          change (rget (nth h (damm s3) []) x0) with (tget (damm s3) h x0). rewrite (I_damm noex s3 HI3).
+          apply scan_member. exists a. split; [exact E2|]. unfold has_leaf. apply existsb_exists. exists (LData h x0). split; [exact Hlf|].
+          cbn [on_data]. rewrite !Nat.eqb_refl. reflexivity. }
+        specialize (D4 y Hin). congruence.
+Qed.
